@@ -298,6 +298,7 @@ def run_case(case):
         counters["collectives_logged"] += world.n_collectives()
         counters["group_creations_logged"] += sum(len(c) for c in world.creations.values())
         counters["set_interleavings"].append(f"{case['id']}:{world.interleaving_signature()}")
+        ledger_excerpt = world.excerpt()
         d = dict(desc, interleaving=il)
         if world.errors:
             world.raise_errors()
@@ -324,7 +325,7 @@ def run_case(case):
     nontrivial = S["W"] >= 2 and S["G"] >= 2 and full >= 1
     counters["multi_group_cases"] = int(bool(S.get("groups")))
     sig = [bool(S.get("groups")), S["W"], S["G"], S["comm"], S["communicate_params"], S["cfg"]["param_dtype"], S["cfg"]["precond"]["kind"], (S["cfg"]["grafting"] or {}).get("type", "none"), S["cfg"]["momentum"] > 0, S["presence_kind"], counters["steps_with_starved_rank"] > 0]
-    return {"counters": counters, "sigs": [sig] if nontrivial else [], "sample": {k: desc[k] for k in ("W", "G", "comm", "communicate_params", "shapes", "presence_kind", "T")}}
+    return {"counters": counters, "sigs": [sig] if nontrivial else [], "sample": dict({k: desc[k] for k in ("W", "G", "comm", "communicate_params", "shapes", "presence_kind", "T")}, ledger=ledger_excerpt)}
 
 
 def conclusive(agg, results, tier):
